@@ -8,7 +8,7 @@ from .model import Program, AnalysisError
 from .interp import Interp, normalize_chunks
 from .values import *    # noqa
 from .strtree import *   # noqa
-from .symeval_ops import DerivV, NTV
+from .symeval_ops import DerivV, NTV, SJoin
 
 SPEC_DIR = os.path.join(os.path.dirname(os.path.abspath(__file__)), "specs")
 
@@ -69,7 +69,46 @@ def nsym(name):
 
 
 def out_tree(buf):
-    return normalize_optws(normalize_chunks(SCat(list(buf.pieces))))
+    return normalize_rotation(normalize_optws(normalize_chunks(SCat(list(buf.pieces)))))
+
+
+def normalize_rotation(node):
+    """separator-first repetitions are rotated to separator-last:  REP(s B) s rest  ==  s REP(B s) rest
+    ('\\n'.join(lines + ['']) and a loop of print(line) write the same bytes)"""
+    node = flatten(node)
+    if isinstance(node, SCat):
+        parts = [normalize_rotation(p) for p in node.parts]
+        out = []
+        i = 0
+        while i < len(parts):
+            p = parts[i]
+            if isinstance(p, (SRep, SSeqRep)) and i + 1 < len(parts) and isinstance(parts[i + 1], SLit):
+                bparts = parts_of(p.body)
+                nxt = parts[i + 1].text
+                if bparts and isinstance(bparts[0], SLit) and bparts[0].text and nxt.startswith(bparts[0].text) \
+                        and not (isinstance(bparts[-1], SLit) and len(bparts) == 1):
+                    s_ = bparts[0].text
+                    body = SCat(list(bparts[1:]) + [SLit(s_)])
+                    rot = SRep(p.var, p.lo, p.hi, flatten(body)) if isinstance(p, SRep) else SSeqRep(p.var, p.seq, flatten(body))
+                    out.append(SLit(s_))
+                    out.append(rot)
+                    rest = nxt[len(s_):]
+                    if rest:
+                        out.append(SLit(rest))
+                    i += 2
+                    continue
+            out.append(p)
+            i += 1
+        return flatten(SCat(out))
+    if isinstance(node, SRep):
+        return SRep(node.var, node.lo, node.hi, normalize_rotation(node.body))
+    if isinstance(node, SSeqRep):
+        return SSeqRep(node.var, node.seq, normalize_rotation(node.body))
+    if isinstance(node, SAlt):
+        return SAlt(node.cond, normalize_rotation(node.a), normalize_rotation(node.b))
+    if isinstance(node, SJoin):
+        return SJoin(node.sep, node.var, node.lo, node.hi, node.seq, normalize_rotation(node.body))
+    return node
 
 
 def _unknown_cond(c):
